@@ -7,7 +7,7 @@ use vbase::{ensure, fail};
 
 use crate::sx::walk;
 
-pub const RULE: &str = "cases are operation histories (decoded from a choice sequence; the whole sequence shrinks) over a heap of 4 DOM slots. Slots start as parsed documents, clones or takes of subtrees (sharing the parsed arena), json!/From-built values or empty containers. Operations: Value::{take, clone, get, get_mut, pointer, pointer_mut (incl. the empty path), as_array_mut, as_object_mut, Index, IndexMut(str|usize), assignment}, Array::{push, pop, insert, remove, swap_remove, truncate, clear, resize, resize_with, retain, retain_mut, split_off, append, drain, extend, extend_from_within, iter_mut, slice indexing, into_iter next/next_back}, Object::{insert, remove, remove_entry, get, get_mut, get_key_value, contains_key, len, is_empty, clear, retain, append, extend, iter, iter_mut, IndexMut, entry -> key / or_insert / or_insert_with / or_insert_with_key / or_default / and_modify / Occupied get, get_mut, insert, remove, into_mut / Vacant key, insert}, moving or cloning a value from one slot into a container of another. Every operation is applied to the DOM and to a reference model (Vec / unique-key map) in lock-step; its result (returned value, Option-ness, lengths, booleans, keys, or the documented panic) must agree, and after every step a canonical dump of ALL slots must equal the model — so a mutation of one value that changes another (the document it was cloned or extracted from, earlier clones) is detected. Exhaustive: every sequence of <= 3 operations over a reduced operation/argument universe. Non-trivial = a mutation after a clone/take/extract of the same arena or of a child of a parsed container; distinct by history bytes.";
+pub const RULE: &str = "cases are operation histories (decoded from a choice sequence; the whole sequence shrinks) over a heap of 4 DOM slots. Slots start as parsed documents (default and raw-number mode; member names up to 45 bytes incl. names that share their first 16 and last 8 bytes), clones or takes of subtrees (sharing the parsed arena), json!/From-built values (incl. owned raw numbers from to_value(RawNumber)) or empty containers. Operations: Value::{take, clone, get, get_mut, pointer, pointer_mut (incl. the empty path), as_array_mut, as_object_mut, Index, IndexMut(str|usize), assignment}, Array::{push, pop, insert, remove, swap_remove, truncate, clear, resize, resize_with, retain, retain_mut, split_off, append, drain, extend, extend_from_within, iter_mut, slice indexing, into_iter next/next_back}, Object::{insert, remove, remove_entry, get, get_mut, get_key_value, contains_key, len, is_empty, clear, retain, append, extend, iter, iter_mut, IndexMut, entry -> key / or_insert / or_insert_with / or_insert_with_key / or_default / and_modify / Occupied get, get_mut, insert, remove, into_mut / Vacant key, insert}, moving or cloning a value from one slot into a container of another. Every operation is applied to the DOM and to a reference model (Vec / unique-key map) in lock-step; its result (returned value, Option-ness, lengths, booleans, keys, or the documented panic) must agree, and after every step a canonical dump of ALL slots must equal the model — so a mutation of one value that changes another (the document it was cloned or extracted from, earlier clones) is detected. Exhaustive: every sequence of <= 3 operations over a reduced operation/argument universe. Non-trivial = a mutation after a clone/take/extract of the same arena or of a child of a parsed container; distinct by history bytes.";
 pub const ASSUMPTIONS: &[&str] = &["starting documents are duplicate-free (a string-keyed map cannot express duplicates)", "documented panics (IndexMut on a wrong kind, Vec-style out-of-range) are expected outcomes and must leave all slots unchanged", "array::IntoIter::as_slice/as_mut_slice are undocumented and not modelled"];
 
 pub const DOCS: &[&str] = &[
@@ -20,10 +20,29 @@ pub const DOCS: &[&str] = &[
     "{\"k1\":1,\"k2\":2,\"k3\":3,\"k4\":4,\"k5\":5,\"k6\":6,\"k7\":7,\"k8\":8,\"k9\":9}",
     "\"just a string\"",
     "12345678901234567890",
+    "{\"com.example.service.alpha.timeout\":100,\"com.example.service.beta0.timeout\":200,\"com.example.service.gamma.timeout\":300,\"k\":[1],\"a_member_name_longer_than_thirty_bytes\":[\"v\"],\"another_member_name_longer_than_thirty_bytes\":\"a string value kept in the arena\"}",
 ];
 
+/// documents parsed in raw-number mode (`use_rawnumber`): number nodes keep their literal
+pub const RAW_DOCS: &[&str] = &["[1.50,12.50,{\"n\":0.10,\"big\":12345678901234567890123,\"k\":[1e2]},-0.0,7]", "{\"a\":1.0,\"b\":[2.00,3],\"c\":{\"d\":4e0}}"];
+
+/// start document number `i` of DOCS ++ RAW_DOCS with its model
+pub fn start_doc(i: usize) -> (Value, M, &'static str) {
+    let i = i % (DOCS.len() + RAW_DOCS.len());
+    if i < DOCS.len() {
+        let d = DOCS[i];
+        (sonic_rs::from_str(d).unwrap(), refjson::parse(d.as_bytes()).unwrap().0.model(d.as_bytes(), false), d)
+    } else {
+        let d = RAW_DOCS[i - DOCS.len()];
+        let v: Value = sonic_rs::Deserializer::from_str(d).use_rawnumber().deserialize().unwrap();
+        (v, refjson::parse(d.as_bytes()).unwrap().0.model(d.as_bytes(), false), d)
+    }
+}
+pub const N_START_DOCS: usize = DOCS.len() + RAW_DOCS.len();
+pub const N_UNIVERSE: usize = 30;
+
 pub fn universe(i: usize) -> (Value, M) {
-    let texts = ["null", "true", "7", "-3", "1.5", "\"s\"", "\"é\\\"x\"", "[1,\"a\"]", "{\"k\":1}", "{\"k\":{\"n\":[]}}", "[]", "{}", "[[2],{\"z\":null}]"];
+    let texts = ["null", "true", "7", "-3", "1.5", "\"s\"", "\"é\\\"x\"", "[1,\"a\"]", "{\"k\":1}", "{\"k\":{\"n\":[]}}", "[]", "{}", "[[2],{\"z\":null}]", "0.10", "[12345678901234567890.5,7]"];
     let t = texts[i % texts.len()];
     let m = refjson::parse(t.as_bytes()).unwrap().0.model(t.as_bytes(), false);
     // build through different constructors
@@ -40,6 +59,10 @@ pub fn universe(i: usize) -> (Value, M) {
         9 => json!({"k": {"n": []}}),
         10 => Value::from(Array::new()),
         11 => Value::from(Object::new()),
+        // owned raw numbers (only `to_value` of a RawNumber makes these)
+        13 => sonic_rs::to_value(&sonic_rs::from_str::<sonic_rs::RawNumber>("0.10").unwrap()).unwrap(),
+        14 => sonic_rs::to_value(&(sonic_rs::from_str::<sonic_rs::RawNumber>("12345678901234567890.5").unwrap(), 7u8)).unwrap(),
+        28 | 29 => sonic_rs::Deserializer::from_str(t).use_rawnumber().deserialize().unwrap(),
         _ => sonic_rs::from_str(t).unwrap(),
     };
     (v, m)
@@ -115,7 +138,7 @@ fn obj_remove(v: &mut Vec<(String, M)>, k: &str) -> Option<M> {
     Some(v.remove(i).1)
 }
 
-const KEYS: &[&str] = &["a", "b", "c", "k", "k1", "k5", "new", "é\"", "", "x", "d", "n"];
+const KEYS: &[&str] = &["a", "b", "c", "k", "k1", "k5", "new", "é\"", "", "x", "d", "n", "com.example.service.alpha.timeout", "com.example.service.gamma.timeout", "com.example.service.delta.timeout", "a_member_name_longer_than_thirty_bytes", "big"];
 
 struct State {
     slots: Vec<Value>,
@@ -173,11 +196,11 @@ pub fn oracle(case: &[u8], obs: &mut Obs) -> Result<(), Fail> {
     // initial slots
     for _ in 0..4 {
         if src.chance(150) {
-            let d = DOCS[src.below(DOCS.len())];
-            st.slots.push(sonic_rs::from_str(d).unwrap());
-            st.models.push(refjson::parse(d.as_bytes()).unwrap().0.model(d.as_bytes(), false));
+            let (v, m, _) = start_doc(src.below(N_START_DOCS));
+            st.slots.push(v);
+            st.models.push(m);
         } else {
-            let (v, m) = universe(src.below(26));
+            let (v, m) = universe(src.below(N_UNIVERSE));
             st.slots.push(v);
             st.models.push(m);
         }
@@ -207,7 +230,7 @@ fn step(st: &mut State, src: &mut Src) -> Result<(), Fail> {
         Some(_) => 0,
         None => return Ok(()),
     };
-    let (uv, um) = universe(src.below(26));
+    let (uv, um) = universe(src.below(N_UNIVERSE));
     macro_rules! target {
         () => {
             st.slots[s].pointer_mut(&path).ok_or_else(|| Fail::new("C15/pointer_mut-none", format!("after [{}] pointer_mut({pd}) is None although the model resolves it", st.log.join("; "))))?
@@ -239,10 +262,10 @@ fn step(st: &mut State, src: &mut Src) -> Result<(), Fail> {
     match op {
         // ---------------------------------------------------------------- slot-level operations
         0 => {
-            let d = DOCS[src.below(DOCS.len())];
+            let (v, m, _) = start_doc(src.below(N_START_DOCS));
             name = format!("slot{s} = parse(doc)");
-            st.slots[s] = sonic_rs::from_str(d).unwrap();
-            st.models[s] = refjson::parse(d.as_bytes()).unwrap().0.model(d.as_bytes(), false);
+            st.slots[s] = v;
+            st.models[s] = m;
             mutating = false;
         }
         1 => {
